@@ -2,7 +2,7 @@
 
 case = {"ops": [[name, [wires...]], ...], "meas": [[kind, [wires...]], ...], "edges": [[u, v], ...],
         "dev": null | [wires...], "numeric": bool}
-observation = "ERR"  |  {"ops": [[name, [wires]]...], "meas": [[wires]...],
+observation = {"err": true, "paths": ...}  |  {"err": false, "ops": [[name, [wires]]...], "meas": [[wires]...],
                           "paths": [[src, dst, [path...]]...], "num": null | max abs difference (float)}
 `paths` are the results the real run obtained from networkx.algorithms.shortest_path, in call order
 (the oracle the model validates); a call that raised is recorded with an empty path.
@@ -81,8 +81,8 @@ def one(c):
     try:
         (new,), fn = qp.transforms.transpile(tape, coupling_map=[tuple(e) for e in c["edges"]], device=dev)
     except Exception:   # ValueError / NotImplementedError / networkx.NetworkXNoPath / NodeNotFound ...
-        return "ERR"
-    o = {"ops": [[op.name, [int(w) for w in op.wires]] for op in new.operations],
+        return {"err": True, "paths": [list(p) for p in LOG]}
+    o = {"err": False,"ops": [[op.name, [int(w) for w in op.wires]] for op in new.operations],
          "meas": [[int(w) for w in m.wires] for m in new.measurements],
          "paths": [list(p) for p in LOG], "num": None}
     if c.get("numeric"):
